@@ -353,7 +353,7 @@ func report(verif, prop, tier string, seed int, results []*FuncResult, obs []*Ob
 	knownSeen := map[string]bool{}
 	trusted := map[string]bool{"SMT prelude: abstract string/float/value axioms (/verif/govc/prelude.go)": true,
 		"go/ssa construction of /repo (golang.org/x/tools v0.29.0)": true, "SMT solvers z3 5.1.0 / z3 4.8.12 / cvc5 1.0.3": true}
-	covers, vacuous, deadPaths := 0, 0, 0
+	covers, vacuous, deadPaths, unrepro := 0, 0, 0, 0
 	for _, ob := range obs {
 		solverS += ob.Seconds
 		for _, t := range ob.Trusted {
@@ -361,6 +361,9 @@ func report(verif, prop, tier string, seed int, results []*FuncResult, obs []*Ob
 		}
 		if ob.Cover {
 			covers++
+			if ob.Backend == "cover:refuted-once-not-reproduced" {
+				unrepro++
+			}
 			if ob.Status == "vacuous" && ob.Group != "" {
 				// alternatives: vacuous only when every member of the group is refuted
 				all := true
@@ -529,7 +532,7 @@ func report(verif, prop, tier string, seed int, results []*FuncResult, obs []*Ob
 		"obligations": total, "discharged": discharged,
 		"checker_cmd":  fmt.Sprintf("govc check -prop %s -tier %s (VC generation over go/ssa; z3-new, cvc5, z3 in turn, %ds per query)", prop, tier, int(to.Seconds())),
 		"trusted_base": tb, "by_backend": byBackend, "by_kind": byKind, "solver_s": round2(solverS), "load_s": round2(loadSecs), "vcgen_s": round2(genSecs),
-		"vacuity_guards":           map[string]int{"checked": covers, "refuted": vacuous, "infeasible_paths_seen": deadPaths},
+		"vacuity_guards":           map[string]int{"checked": covers, "refuted": vacuous, "infeasible_paths_seen": deadPaths, "refuted_once_not_reproduced": unrepro},
 		"functions_under_contract": funcs, "samples": samples, "known_findings": knownLines,
 		"explanation": "every obligation is generated from /repo's current SSA against the //@ contracts in zz_contracts_verif.go; discharged = solver answered unsat for the negated goal",
 	}
